@@ -27,6 +27,7 @@ the specification's fragment; `captureSlotsInUse` keeps both of their slots).
 import RegexVerif.Lemmas.Quick
 import RegexVerif.Lemmas.Api
 import RegexVerif.Lemmas.StringFilter
+import RegexVerif.Lemmas.QuickCompile
 
 namespace RegexVerif.Props.C02
 open RegexVerif RegexVerif.Spec RegexVerif.Scan RegexVerif.Api RegexVerif.Lemmas.Scan
@@ -425,5 +426,248 @@ example : findStringMatch xabaPrograms (runeFilter ((newStringPrefixFilter cfCod
     matchString xabaPrograms (runeFilter ((newStringPrefixFilter cfCode).map (·.2)) cfInput) false 4 = true := ⟨by decide, by decide⟩
 
 end ConcreteFilter
+
+/-! ## ─── D. the bool-only program at INTERPRETER level (slice "quick") ───
+
+Part A is about the specification (`Spec.m` on `stripCaps`), `Props.C01.emitQuick_eq_emit_strip` about the writer
+(`QuickCodes` = the main writer's code for `Writer.stripTree`), `Props.C01.compile_correct_T4e` about the interpreter
+running the MAIN program.  Here they are composed: on the fragment of the compiler-correctness theorem (`Compile.InFrag 8`)
+the interpreter model running the bool-only program `Writer.emitQuick ti t` — what `MatchString` / `MatchRunes` /
+`FindAll*Index` execute — halts without fault and decides exactly what the main program decides, at every position,
+and ends at the same text position (the match end, from which the scan loop of `FindAll*Index` continues).
+
+Spine: `toPat_stripTree` (the tree the second writer effectively compiles translates to `stripCaps` of the translation,
+for the `keep` set `Compile.quickKeep` = "`emitCapture` of the second writer says yes", which contains every group the
+pattern reads back because `captureSlotsInUse` marks the operand of every `Ref`/`Testref` of the emitted code) →
+`stripTree_keeps_fragment` → `Compile.compile_correct_prog` (the whole-attempt theorem for any program sharing code words,
+tables and `Capsize` with `emit`) on the stripped tree → `quick_agrees` (part A). -/
+section QuickCompile
+open RegexVerif.Compile RegexVerif.Writer RegexVerif.Generated.Opcodes
+
+/-- **(D1) The specification pattern of the stripped tree is the stripped specification pattern.**  `t` a well-formed
+    tree whose group 0 has slot 0 (part of `InFrag`), `pat` its translation (`gen.FromGoTree`) in direction `d`.  Then
+    the tree the second writer effectively compiles (`stripTree (quickCfg ti t) t`: a `Capture` whose `Setmark` /
+    `Capturemark` pair `emitCapture` drops is a plain group) translates to `stripCaps keep pat` for
+    `keep = quickKeep ti t` (`keep g` ⇔ `emitCapture` of the second writer keeps an ordinary capture of group `g`, i.e.
+    ⇔ the slot of `g` is marked in `CaptureSlotInUse` or lies outside it), and this `keep` satisfies the hypothesis of
+    `quick_agrees`: every group `pat` reads back (`\g`, `(?(g)…)`) is kept — so is every group in
+    `Spec.slotsInUse pat = 0 :: refsOf pat`.
+
+    Relation of the two "in use" analyses: `Spec.slotsInUse pat ⊆ {g | kept (quickKeep ti t) g}` is what is proved and is
+    the direction soundness needs (`stripCaps` for a LARGER keep set strips fewer groups).  The converse — the writer
+    keeps no other group, i.e. `stripCaps (quickKeep ti t) pat = Spec.quickPat pat` — is not proved (it needs: slots are
+    in bijection with the groups of the tree, and no other instruction marks a slot); leg Cc compares the two patterns
+    on every covered tree (`Cc:quickpat`). -/
+theorem toPat_stripTree (ti : TreeInfo) (t : GoNode) (TPx : TP) (d : Bool) (pat : Pat) (hwf : treeWf ti t = true)
+    (h0 : mapCapnum (mainCfg ti) 0 = 0) (hpat : toPatRoot TPx d t = some pat) :
+    toPatRoot TPx d (stripTree (quickCfg ti t) t) = some (stripCaps (quickKeep ti t) pat) ∧
+    (∀ g ∈ refsOf pat, quickKeep ti t g = true) ∧
+    (∀ g, inUse (Spec.slotsInUse pat) g = true → kept (quickKeep ti t) g = true) ∧
+    (∀ g : Nat, quickKeep ti t g = emitCapture (quickCfg ti t) (g : Int) (-1)) := by
+  simp only [treeWf, Bool.and_eq_true] at hwf
+  obtain ⟨⟨hok, hcaps⟩, _⟩ := hwf
+  have hz := quickKeep_zero ti t hok hcaps h0
+  obtain ⟨body, ht, hb⟩ := toPatRoot_some hpat
+  have hrefs : ∀ g ∈ refsOf pat, quickKeep ti t g = true := by
+    have hp : toPat TPx d t = some (.cap 0 pat) := by rw [ht]; simp [toPat, hb]
+    intro g hg
+    exact quickKeep_refs ti t TPx d _ hok hcaps hp g (by simpa [refsOf] using hg)
+  refine ⟨toPatRoot_strip _ hz TPx d t pat hpat, hrefs, ?_, fun _ => rfl⟩
+  intro g hg
+  simp only [inUse, Spec.slotsInUse, List.contains_cons, Bool.or_eq_true, beq_iff_eq] at hg
+  rcases hg with rfl | hg
+  · rfl
+  · exact kept_of_keep (hrefs g (by simpa using hg))
+
+-- `(a)(b)\1`: the second writer keeps group 1 (read back by `\1`) and drops group 2 …
+example : quickKeep (ccInfo 3) qkT1 1 = true ∧ quickKeep (ccInfo 3) qkT1 2 = false ∧ Writer.slotsInUse (ccInfo 3) qkT1 = [true, true, false] := by
+  decide
+-- … the stripped tree translates to `(a)b\1` = `stripCaps` of the translation = `quickPat` of the translation
+example : toPatRoot ccTP false qkT1 = some abaPat ∧
+    toPatRoot ccTP false (stripTree (quickCfg (ccInfo 3) qkT1) qkT1) = some (stripCaps keep1 abaPat) ∧
+    stripCaps (quickKeep (ccInfo 3) qkT1) abaPat = stripCaps keep1 abaPat ∧ quickPat abaPat = stripCaps keep1 abaPat :=
+  ⟨by rfl, by rfl, by rfl, by rfl⟩
+-- `(x)y`: group 1 is dropped, the stripped tree translates to `xy`
+example : toPatRoot ccTP false (stripTree (quickCfg (ccInfo 2) qkT2) qkT2) =
+    some (.seq (.chr (.one 120 false)) (.chr (.one 121 false))) ∧ quickKeep (ccInfo 2) qkT2 1 = false := ⟨by rfl, by decide⟩
+example : treeWf (ccInfo 3) qkT1 = true ∧ mapCapnum (mainCfg (ccInfo 3)) 0 = 0 ∧ treeWf (ccInfo 2) qkT2 = true := by decide
+
+/-- **(D2) `stripTree` preserves the fragment and well-formedness**: the tree the second writer effectively compiles
+    is again a tree of `InFrag k` (same tier bound, same direction, translation succeeds) with `treeWf` — so every
+    theorem about `emit` on the fragment applies to it. -/
+theorem stripTree_keeps_fragment (k : Nat) (ti : TreeInfo) (t : GoNode) (TPx : TP) (hfrag : InFrag k TPx ti t = true)
+    (hwf : treeWf ti t = true) :
+    InFrag k TPx ti (stripTree (quickCfg ti t) t) = true ∧ treeWf ti (stripTree (quickCfg ti t) t) = true := by
+  have hwf' := hwf
+  simp only [treeWf, Bool.and_eq_true] at hwf'
+  have hz := quickKeep_zero ti t hwf'.1.1 hwf'.1.2 (inFrag_spec hfrag).2.2.2.1
+  exact ⟨inFrag_strip _ hz k TPx ti t hfrag, treeWf_strip _ ti t hwf⟩
+
+example : InFrag 6 ccTP (ccInfo 3) qkT1 = true ∧ InFrag 5 ccTP (ccInfo 3) qkT1 = false ∧
+    InFrag 6 ccTP (ccInfo 3) (stripTree (quickCfg (ccInfo 3) qkT1) qkT1) = true ∧
+    treeWf (ccInfo 3) (stripTree (quickCfg (ccInfo 3) qkT1) qkT1) = true := by decide
+example : InFrag 1 ccTP (ccInfo 2) qkT2 = true ∧ InFrag 1 ccTP (ccInfo 2) (stripTree (quickCfg (ccInfo 2) qkT2) qkT2) = true := by decide
+
+/-- **(D3) `compile_correct_quick` — the bool-only program decides exactly what the main program decides.**  Under the
+    hypotheses of `Props.C01.compile_correct_T4e` (tree in `InFrag 8` — every node type the specification has a pattern
+    for, both directions —, `treeWf`, related oracles, text shorter than `MaxInt32`, ECMAScript backreference rule off),
+    for every start position `i` and the bool-only program `qp` that `Write` / `makeQuickCode` build (`emitQuick ti t =
+    some qp`; there is none when every slot is in use):
+     * BOTH programs start and halt at `Stop` for every sufficient fuel — no fault of any kind, no fuel exhaustion;
+     * `matched` of the bool-only program's final state (`runmatch.matchcount[0] > 0`, the value `MatchString` /
+       `MatchRunes` return) = `(Spec.attempt se pat ti.rtl i).isSome` = `matched` of the main program's final state;
+     * on success both stand at the same text position, the end of the specification's match (what the scan loop of
+       `FindAll*Index` reads from the bool-only run);
+     * on success the bool-only program's capture arrays denote the specification's capture log with the dropped
+       groups erased (`eraseCaps (quickKeep ti t)`): group 0 and every kept group have exactly the main program's
+       captures, the dropped groups none. -/
+theorem compile_correct_quick (ti : TreeInfo) (t : GoNode) (TPx : TP) (env : VM.Env) (se : Spec.Env) (pat : Pat) (i : Nat)
+    (qp : Code.Prog) (hfrag : InFrag 8 TPx ti t = true) (hwf : treeWf ti t = true)
+    (hpat : toPatRoot TPx ti.rtl t = some pat) (hrel : EnvRel TPx (codeFromTree (mainCfg ti) t).2.sets env se)
+    (hi : i ≤ se.n) (hlen : se.n < 2147483647) (henv : env.ecma = false) (hq : emitQuick ti t = some qp) :
+    ∃ s0 s n q0 qs qn,
+      VM.init (emit ti t) (i : Int) = .ok s0 ∧ (∀ fuel, n ≤ fuel → (VM.run (emit ti t) env fuel s0).1 = .done s) ∧
+      VM.init qp (i : Int) = .ok q0 ∧ (∀ fuel, qn ≤ fuel → (VM.run qp env fuel q0).1 = .done qs) ∧
+      VM.matched qs = (Spec.attempt se pat ti.rtl i).isSome ∧
+      VM.matched qs = VM.matched s ∧
+      (VM.matched s = true → qs.textpos = s.textpos) ∧
+      ∀ st, Spec.attempt se pat ti.rtl i = some st →
+        qs.textpos = (st.pos : Int) ∧ s.textpos = (st.pos : Int) ∧
+        CapRep (slotOf ti) (capsize ti) qs.cap (eraseCaps (quickKeep ti t) st).caps ∧
+        CapRep (slotOf ti) (capsize ti) s.cap st.caps := by
+  obtain ⟨s0, s, n, h1, h2, hag⟩ :=
+    compile_correct_upto 8 (by decide) ti t TPx env se pat i hfrag hwf hpat hrel hi (by omega) (fun _ => hlen) (fun _ => henv)
+  obtain ⟨hfrag', hwf'⟩ := stripTree_keeps_fragment 8 ti t TPx hfrag hwf
+  obtain ⟨hpat', hrefs, _, _⟩ := toPat_stripTree ti t TPx ti.rtl pat hwf (inFrag_spec hfrag).2.2.2.1 hpat
+  obtain ⟨hc1, hc2, hc3, hc4⟩ := emitQuick_prog ti t qp hq
+  have htab : (codeFromTree (mainCfg ti) (stripTree (quickCfg ti t) t)).2 = (codeFromTree (mainCfg ti) t).2 := by
+    simp only [emitQuick] at hq
+    cases hqc : quickCodes ti t with
+    | none => simp [hqc] at hq
+    | some q => exact (quickCodes_strip ti t q hqc).2
+  obtain ⟨q0, qs, qn, g1, g2, gag⟩ :=
+    compile_correct_prog 8 (by decide) ti (stripTree (quickCfg ti t) t) TPx env se (stripCaps (quickKeep ti t) pat) i qp
+      hc1 hc2 hc3 hc4 hfrag' hwf' hpat' (by rw [htab]; exact hrel) hi (by omega) (fun _ => hlen) (fun _ => henv)
+  have hatt : Spec.attempt se (stripCaps (quickKeep ti t) pat) ti.rtl i =
+      (Spec.attempt se pat ti.rtl i).map (eraseCaps (quickKeep ti t)) :=
+    attempt_strip se _ pat (fun g hg => kept_of_keep (hrefs g hg)) ti.rtl i
+  have hv : VM.matched qs = (Spec.attempt se pat ti.rtl i).isSome := by
+    rw [gag.verdict, hatt]; cases Spec.attempt se pat ti.rtl i <;> rfl
+  have hst : ∀ st, Spec.attempt se pat ti.rtl i = some st →
+      qs.textpos = (st.pos : Int) ∧ s.textpos = (st.pos : Int) ∧
+      CapRep (slotOf ti) (capsize ti) qs.cap (eraseCaps (quickKeep ti t) st).caps ∧
+      CapRep (slotOf ti) (capsize ti) s.cap st.caps := by
+    intro st h
+    have h' : Spec.attempt se (stripCaps (quickKeep ti t) pat) ti.rtl i = some (eraseCaps (quickKeep ti t) st) := by
+      rw [hatt, h]; rfl
+    exact ⟨gag.pos (eraseCaps (quickKeep ti t) st) h', hag.pos st h, gag.caps (eraseCaps (quickKeep ti t) st) h', hag.caps st h⟩
+  refine ⟨s0, s, n, q0, qs, qn, h1, h2, g1, g2, hv, by rw [hv, hag.verdict], ?_, hst⟩
+  intro hm
+  rw [hag.verdict] at hm
+  cases h : Spec.attempt se pat ti.rtl i with
+  | none => rw [h] at hm; cases hm
+  | some st => obtain ⟨a, b, _, _⟩ := hst st h; rw [a, b]
+
+-- `(a)(b)\1` on "aba": the bool-only program `Lazybranch; Setmark; Setmark; One a; Capturemark 1; One b; Ref 1;
+-- Capturemark 0; Stop` (no marks for group 2) and the main program both match at 0 and end at 3; at 1 both fail
+example : (emitQuick (ccInfo 3) qkT1).map (·.codes.toList) =
+    some [23, 16, 31, 31, 9, 97, 32, 1, -1, 9, 98, 13, 1, 32, 0, -1, 40] := by decide
+example : qkRun (ccInfo 3) qkT1 (ccEnv [] (ccSe [97, 98, 97])) 0 60 = some (true, 3, [[0, 3], [0, 1], []]) ∧
+    ccRun (ccInfo 3) qkT1 (ccEnv [] (ccSe [97, 98, 97])) 0 60 = some (true, 3, [[0, 3], [0, 1], [1, 1]]) := by decide
+example : (qkRun (ccInfo 3) qkT1 (ccEnv [] (ccSe [97, 98, 97])) 1 60).map (·.1) = some false ∧
+    (ccRun (ccInfo 3) qkT1 (ccEnv [] (ccSe [97, 98, 97])) 1 60).map (·.1) = some false := by decide
+-- `(x)y` on "xy": group 1 leaves no trace in the bool-only run
+example : qkRun (ccInfo 2) qkT2 (ccEnv [] (ccSe [120, 121])) 0 60 = some (true, 2, [[0, 2], []]) ∧
+    ccRun (ccInfo 2) qkT2 (ccEnv [] (ccSe [120, 121])) 0 60 = some (true, 2, [[0, 2], [0, 1]]) := by decide
+/-- the hypotheses of `compile_correct_quick` hold for `(a)(b)\1` on "aba" at 0, so its conclusion does: the bool-only
+    program exists, halts, and says "matched" -/
+example : ∃ qp q0 qs qn, emitQuick (ccInfo 3) qkT1 = some qp ∧ VM.init qp (0 : Nat) = .ok q0 ∧
+    (∀ fuel, qn ≤ fuel → (VM.run qp (ccEnv [] (ccSe [97, 98, 97])) fuel q0).1 = .done qs) ∧ VM.matched qs = true :=
+  match hq : emitQuick (ccInfo 3) qkT1 with
+  | some qp =>
+    let ⟨_, _, _, q0, qs, qn, _, _, g1, g2, hv, _⟩ :=
+      compile_correct_quick (ccInfo 3) qkT1 ccTP (ccEnv [] (ccSe [97, 98, 97])) (ccSe [97, 98, 97]) abaPat 0 qp (by decide)
+        (by decide) (by rfl) (ccRel _ _) (by decide) (by decide) rfl hq
+    ⟨qp, q0, qs, qn, rfl, g1, g2, by rw [hv]; decide⟩
+  | none => absurd hq (by decide)
+
+/-- **(D4) `compile_correct_find_quick` — the scan.**  Under the hypotheses of `compile_correct_quick`, for every start
+    of the scan: `Spec.find` (in the direction of the tree) returns `st` exactly when the scan order splits as
+    `before ++ i :: after` such that at `i` BOTH programs halt matched at the text position `st.pos` — the bool-only
+    program with the kept captures of `st`, the main program with all of them, `st` being the specification's attempt
+    at `i` — and at every earlier position both programs halt unmatched.  So the first position in scan order at which
+    the bool-only attempt succeeds is the first at which the main program's does, is the position `Spec.find`
+    reports, and the end positions agree.  (The engine's `scan` is this naive scan up to the accelerations of C03.) -/
+theorem compile_correct_find_quick (ti : TreeInfo) (t : GoNode) (TPx : TP) (env : VM.Env) (se : Spec.Env) (pat : Pat)
+    (start : Nat) (qp : Code.Prog) (hstart : start ≤ se.n) (hfrag : InFrag 8 TPx ti t = true) (hwf : treeWf ti t = true)
+    (hpat : toPatRoot TPx ti.rtl t = some pat) (hrel : EnvRel TPx (codeFromTree (mainCfg ti) t).2.sets env se)
+    (hlen : se.n < 2147483647) (henv : env.ecma = false) (hq : emitQuick ti t = some qp) (st : St) :
+    Spec.find se pat ti.rtl start = some st ↔
+      ∃ (before : List Nat) (i : Nat) (after : List Nat), Spec.scanOrder ti.rtl start se.n = before ++ i :: after ∧
+        (∃ s0 s n q0 qs qn,
+          VM.init (emit ti t) (i : Int) = .ok s0 ∧ (∀ fuel, n ≤ fuel → (VM.run (emit ti t) env fuel s0).1 = .done s) ∧
+          VM.init qp (i : Int) = .ok q0 ∧ (∀ fuel, qn ≤ fuel → (VM.run qp env fuel q0).1 = .done qs) ∧
+          VM.matched qs = true ∧ VM.matched s = true ∧ qs.textpos = (st.pos : Int) ∧ s.textpos = (st.pos : Int) ∧
+          CapRep (slotOf ti) (capsize ti) qs.cap (eraseCaps (quickKeep ti t) st).caps ∧
+          CapRep (slotOf ti) (capsize ti) s.cap st.caps ∧ Spec.attempt se pat ti.rtl i = some st) ∧
+        ∀ j ∈ before, ∃ s0 s n q0 qs qn,
+          VM.init (emit ti t) (j : Int) = .ok s0 ∧ (∀ fuel, n ≤ fuel → (VM.run (emit ti t) env fuel s0).1 = .done s) ∧
+          VM.init qp (j : Int) = .ok q0 ∧ (∀ fuel, qn ≤ fuel → (VM.run qp env fuel q0).1 = .done qs) ∧
+          VM.matched qs = false ∧ VM.matched s = false := by
+  have hatt := fun j (hj : j ≤ se.n) =>
+    compile_correct_quick ti t TPx env se pat j qp hfrag hwf hpat hrel hj hlen henv hq
+  have hpos : ∀ j ∈ Spec.scanOrder ti.rtl start se.n, j ≤ se.n := fun j hj => mem_scanOrder_le ti.rtl start se.n j hstart hj
+  unfold find
+  rw [List.findSome?_eq_some_iff]
+  constructor
+  · rintro ⟨before, i, after, hso, hat, hbef⟩
+    refine ⟨before, i, after, hso, ?_, ?_⟩
+    · obtain ⟨s0, s, n, q0, qs, qn, h1, h2, g1, g2, hv, hvs, _, hst⟩ := hatt i (hpos i (by rw [hso]; simp))
+      obtain ⟨a, b, c, d⟩ := hst st hat
+      have hqm : VM.matched qs = true := by rw [hv, hat]; rfl
+      exact ⟨s0, s, n, q0, qs, qn, h1, h2, g1, g2, hqm, by rw [← hvs]; exact hqm, a, b, c, d, hat⟩
+    · intro j hj
+      obtain ⟨s0, s, n, q0, qs, qn, h1, h2, g1, g2, hv, hvs, _, _⟩ := hatt j (hpos j (by rw [hso]; simp [hj]))
+      have hqm : VM.matched qs = false := by rw [hv, hbef j hj]; rfl
+      exact ⟨s0, s, n, q0, qs, qn, h1, h2, g1, g2, hqm, by rw [← hvs]; exact hqm⟩
+  · rintro ⟨before, i, after, hso, ⟨_, _, _, _, _, _, _, _, _, _, _, _, _, _, _, _, hat⟩, hbef⟩
+    refine ⟨before, i, after, hso, hat, ?_⟩
+    intro j hj
+    obtain ⟨_, _, _, q0, qs, qn, _, _, g1, g2, hm, _⟩ := hbef j hj
+    obtain ⟨_, _, _, q0', qs', qn', _, _, g1', g2', hv, _⟩ := hatt j (hpos j (by rw [hso]; simp [hj]))
+    have hq0 : q0 = q0' := by rw [g1] at g1'; exact Except.ok.inj g1'
+    subst hq0
+    have hss : qs = qs' := run_done_unique' _ env q0 qs qs' _ _ (g2 (max qn qn') (by omega)) (g2' (max qn qn') (by omega))
+    subst hss
+    rw [hv] at hm
+    cases hatt' : Spec.attempt se pat ti.rtl j with
+    | none => rfl
+    | some x => rw [hatt'] at hm; simp at hm
+
+-- `(a)(b)\1` on "xaba" from 0: the specification finds the match at 1 ending at 4 (`xabaEnv`, part A); position 0 is the
+-- only earlier one, there both programs fail, at 1 both match and stand at 4
+example : Spec.find (ccSe [120, 97, 98, 97]) abaPat false 0 = some { pos := 4, caps := [(1, 1, 1), (2, 2, 1), (0, 1, 3)] } := by decide
+example : Spec.scanOrder false 0 4 = [0] ++ 1 :: [2, 3, 4] := by decide
+example : (qkRun (ccInfo 3) qkT1 (ccEnv [] (ccSe [120, 97, 98, 97])) 0 60).map (·.1) = some false ∧
+    (ccRun (ccInfo 3) qkT1 (ccEnv [] (ccSe [120, 97, 98, 97])) 0 60).map (·.1) = some false ∧
+    qkRun (ccInfo 3) qkT1 (ccEnv [] (ccSe [120, 97, 98, 97])) 1 60 = some (true, 4, [[1, 3], [1, 1], []]) ∧
+    ccRun (ccInfo 3) qkT1 (ccEnv [] (ccSe [120, 97, 98, 97])) 1 60 = some (true, 4, [[1, 3], [1, 1], [2, 1]]) := by decide
+/-- the hypotheses of `compile_correct_find_quick` hold for this instance, so the right-hand side does: some position of
+    the scan order has the bool-only program matched and standing at 4 -/
+example : ∃ qp i q0 qs qn, emitQuick (ccInfo 3) qkT1 = some qp ∧ i ∈ Spec.scanOrder false 0 4 ∧ VM.init qp (i : Int) = .ok q0 ∧
+    (∀ fuel, qn ≤ fuel → (VM.run qp (ccEnv [] (ccSe [120, 97, 98, 97])) fuel q0).1 = .done qs) ∧
+    VM.matched qs = true ∧ qs.textpos = 4 :=
+  match hq : emitQuick (ccInfo 3) qkT1 with
+  | some qp =>
+    let ⟨before, i, after, hso, ⟨_, _, _, q0, qs, qn, _, _, g1, g2, hm, _, hp, _⟩, _⟩ :=
+      (compile_correct_find_quick (ccInfo 3) qkT1 ccTP (ccEnv [] (ccSe [120, 97, 98, 97])) (ccSe [120, 97, 98, 97]) abaPat 0 qp
+        (by decide) (by decide) (by decide) (by rfl) (ccRel _ _) (by decide) rfl hq
+        { pos := 4, caps := [(1, 1, 1), (2, 2, 1), (0, 1, 3)] }).mp (by decide)
+    ⟨qp, i, q0, qs, qn, rfl, by
+      have : Spec.scanOrder false 0 4 = before ++ i :: after := hso
+      rw [this]; simp, g1, g2, hm, hp⟩
+  | none => absurd hq (by decide)
+
+end QuickCompile
 
 end RegexVerif.Props.C02
